@@ -1,3 +1,4 @@
+#include <string.h>
 #include "util.h"
 #include <rtosc/arg-val.h>
 #include <rtosc/arg-val-itr.h>
@@ -24,11 +25,15 @@ size_t rtosc_avmessage(char                  *buffer,
     STACKALLOC(char, argstr,val_max+1);
 
     int i;
+    int nvals = 0;
     for(i = 0; i < val_max; ++i)
     {
         rtosc_arg_val_t av_buffer;
         const rtosc_arg_val_t* cur = rtosc_arg_val_itr_get(&itr, &av_buffer);
-        vals[i] = cur->val;
+        // rtosc_amessage() expects values for those types only
+        // that carry a payload (not for T, F, N, I)
+        if(cur->type && strchr("isbfhtdSrmc", cur->type))
+            vals[nvals++] = cur->val;
         argstr[i] = cur->type;
         rtosc_arg_val_itr_next(&itr);
     }
